@@ -9,7 +9,7 @@ use ark_bulletproofs::{BulletproofGens, PedersenGens};
 use ark_ec::AffineRepr;
 use merlin::Transcript;
 
-const ALPHA1: [Op; 5] = [Op::Commit, Op::Alloc, Op::AllocMul, Op::Mul, Op::Con];
+const ALPHA1: [Op; 6] = [Op::Commit, Op::CommitDup, Op::Alloc, Op::AllocMul, Op::Mul, Op::Con];
 const ALPHA2: [Op; 4] = [Op::Alloc, Op::AllocMul, Op::Mul, Op::Con];
 
 fn sequences(alpha: &[Op], max: usize) -> Vec<Vec<Op>> {
@@ -41,7 +41,7 @@ fn expected(ops1: &[Op], ops2: &[Op]) -> (Vec<String>, Vec<usize>) {
         }
         for o in ops.iter() {
             match o {
-                Op::Commit => {
+                Op::Commit | Op::CommitDup => {
                     h.push(format!("C{}", m));
                     m += 1;
                 }
